@@ -317,6 +317,7 @@ def stepConc (st : St) (args : List String) : St × String :=
     | some i => (st, pcLabel (st.conc.thr i).pc)
     | none => (st, "bad-op")
   | ["lin"] => (st, toString st.conc.lin.length)
+  | ["tree"] => (st, showOut st.conc.sys.tree)
   | _ => (st, "bad-op")
 
 def step (st : St) (line : String) : St × String :=
